@@ -362,6 +362,9 @@ class DataClassSerializeMixin(DataClassDictMixin, SerializableType):
                 )
             ),
             Dumper=YamlDumper,
+            # Keep the key order of mappings (the dumper would sort them): the order of a
+            # mapping valued property is part of the node's content
+            sort_keys=False,
         )
 
     @classmethod
